@@ -492,12 +492,15 @@ def classify_docroot(line, out):
 
 
 # ---------------------------------------------------------------------- symlink walk (real filesystem)
+LONG1, LONG2 = "long_directory_name_number_one", "long_directory_name_number_two"
+
+
 def build_symtree(base, rootname="root", marker=False):
     """base/<rootname> is the served tree, base/outside is not; returns the root"""
     root = os.path.join(base, rootname)
-    os.makedirs(os.path.join(root, "d1", "d2"))
+    os.makedirs(os.path.join(root, "d1", "d2", LONG1, LONG2))
     os.makedirs(os.path.join(base, "outside"))
-    for p in ("f0", "d1/f", "d1/d2/f"):
+    for p in ("f0", "d1/f", "d1/d2/f", "d1/d2/%s/%s/f" % (LONG1, LONG2)):
         fp = os.path.join(root, p)
         open(fp, "w").write(("FILE:" + fp + "\n") if marker else ("in:" + p))
     open(os.path.join(base, "outside", "canary"), "w").write("CANARY")
@@ -539,6 +542,11 @@ def gen_symwalk(ctx, root):
             if n >= 4 and rng.random() > (0.12 if ctx.quick else 0.3):
                 continue
             names.add(rootb + b"".join(b"/" + c for c in t))
+    deep = ("/d2/%s/%s/f" % (LONG1, LONG2)).encode()
+    for pre in (b"/d1", b"/l_d", b"/d1/l_up/d1", b"/l_d/l_up/l_d", b"/l_out/../root/d1", b"/nx"):
+        for cut in range(0, 5):
+            names.add(rootb + pre + b"/".join(deep.split(b"/")[:cut + 1]))
+            names.add(rootb + pre + b"/".join(deep.split(b"/")[:cut + 1]) + b"/")
     names |= {b"/", b"", b"relative/path", rootb + b"/" + b"a" * 5000, b"/" + b"a/" * 2047, b"/" + b"a/" * 2048, rootb + b"/d1/" + b"x" * 300}
     lines = []
     for nm in sorted(names):
@@ -1187,6 +1195,10 @@ def e2e_symlink(ctx, bd, n):
             targets.add(u)
             if rng.random() < 0.2:
                 targets.add(u + b"/")
+    deep = ("/d2/%s/%s/f" % (LONG1, LONG2)).encode()
+    for pre in (b"/d1", b"/l_d", b"/d1/l_up/d1", b"/l_d/l_up/l_d"):
+        for cut in range(0, 5):
+            targets.add(pre + b"/".join(deep.split(b"/")[:cut + 1]))
     targets = sorted(targets)
     D = srv.docroot.encode()
     lines = []
